@@ -116,4 +116,73 @@ theorem readHeader_serHeader (h : BlockHeader) (hw : h.WF) (r : Bytes) :
     readFixed_le _ 4 _ (by omega : h.time < 256 ^ 4), readFixed_le _ 4 _ (by omega : h.bits < 256 ^ 4),
     readFixed_le _ 4 _ (by omega : h.nonce < 256 ^ 4)]
 
+/-! ### The other direction for the fixed-width readers: whatever they accept re-serialises to the bytes read -/
+
+theorem readFixed_some (k : Nat) (bs : Bytes) (v : Nat) (r : Bytes) (h : readFixed k bs = some (v, r)) :
+    leBytes v k ++ r = bs ∧ v < 256 ^ k := by
+  unfold readFixed at h
+  split at h
+  · simp at h
+  · rename_i hl
+    simp only [Option.some.injEq, Prod.mk.injEq] at h
+    obtain ⟨hv, hr⟩ := h
+    have hlen : (bs.take k).length = k := by simp; omega
+    constructor
+    · rw [← hv, ← hr]
+      have := leBytes_leVal (bs.take k)
+      rw [hlen] at this
+      rw [this, List.take_append_drop]
+    · rw [← hv]
+      have := leVal_lt (bs.take k)
+      rwa [hlen] at this
+
+theorem readBytes_some (k : Nat) (bs b r : Bytes) (h : readBytes k bs = some (b, r)) :
+    b ++ r = bs ∧ b.length = k := by
+  unfold readBytes at h
+  split at h
+  · simp at h
+  · rename_i hl
+    simp only [Option.some.injEq, Prod.mk.injEq] at h
+    obtain ⟨hb, hr⟩ := h
+    constructor
+    · rw [← hb, ← hr, List.take_append_drop]
+    · rw [← hb]; simp; omega
+
+/-- every byte string the header reader accepts is the serialisation of the (well-formed) header it
+returns, followed by the rest it returns: the reader loses and invents nothing -/
+theorem serHeader_readHeader (bs : Bytes) (h : BlockHeader) (r : Bytes) (hr : readHeader bs = some (h, r)) :
+    serHeader h ++ r = bs ∧ h.WF := by
+  unfold readHeader at hr
+  split at hr
+  · simp at hr
+  · rename_i v r1 e1
+    split at hr
+    · simp at hr
+    · rename_i p r2 e2
+      split at hr
+      · simp at hr
+      · rename_i m r3 e3
+        split at hr
+        · simp at hr
+        · rename_i t r4 e4
+          split at hr
+          · simp at hr
+          · rename_i b r5 e5
+            split at hr
+            · simp at hr
+            · rename_i n r6 e6
+              simp only [Option.some.injEq, Prod.mk.injEq] at hr
+              obtain ⟨hh, hrr⟩ := hr
+              subst hh; subst hrr
+              obtain ⟨a1, b1⟩ := readFixed_some _ _ _ _ e1
+              obtain ⟨a2, b2⟩ := readBytes_some _ _ _ _ e2
+              obtain ⟨a3, b3⟩ := readBytes_some _ _ _ _ e3
+              obtain ⟨a4, b4⟩ := readFixed_some _ _ _ _ e4
+              obtain ⟨a5, b5⟩ := readFixed_some _ _ _ _ e5
+              obtain ⟨a6, b6⟩ := readFixed_some _ _ _ _ e6
+              constructor
+              · simp only [serHeader, List.append_assoc]
+                rw [a6, a5, a4, a3, a2, a1]
+              · exact ⟨by omega, b2, b3, by omega, by omega, by omega⟩
+
 end Btc
